@@ -427,7 +427,9 @@ def wrap_ufunc(
                 r = convert_nan(r)
         except FoundError as ex:
             r = ex.err
-        except (ValueError, TypeError):
+        except BaseError:
+            raise
+        except Exception:
             r = Error.errors['#VALUE!']
         return r
 
